@@ -78,4 +78,155 @@ def angle (u v : V3 α) : α := Scalar.acos (V3.dot u v / (V3.norm u * V3.norm v
 /-- interior dihedral angle between two faces with OUTWARD normals `n₁`, `n₂`: `π − ∠(n₁, n₂)` -/
 def dihedral (n1 n2 : V3 α) : α := pi - angle n1 n2
 
+/-- the same angle without `acos` and without unit normals: `atan2(|n₁ × n₂|, −n₁·n₂)` (well conditioned
+for knife edges and for nearly coplanar faces alike) -/
+def dihedralAtan2 (n1 n2 : V3 α) : α := Scalar.atan2 (V3.norm (V3.cross n1 n2)) (-(V3.dot n1 n2))
+
+/-! ### the planar parallel body BY DECOMPOSITION (deepening round)
+
+`K ⊕ rB` for a convex polygon `K` (vertices `vs`, counter-clockwise) is the union of
+  * `K` itself (area `A`),
+  * one rectangle `L_i × r` on every edge,
+  * one circular sector of radius `r` at every vertex whose opening angle is the exterior (turning)
+    angle `θ_i` at that vertex (area `θ_i r²/2`, arc `θ_i r`).
+What is trusted here is only that these pieces tile the parallel body and the area of a rectangle
+and of a circular sector.  That the sectors add up to ONE full disc (`Σ θ_i = 2π`) — which is what
+turns the decomposition into `A + P r + π r²` — is a theorem (`polygon_exterior_angles_sum`).
+A planar point is a pair `(x, y)`. -/
+
+def sub2 (p q : α × α) : α × α := (p.1 - q.1, p.2 - q.2)
+def cross2 (e f : α × α) : α := e.1 * f.2 - e.2 * f.1
+def dot2 (e f : α × α) : α := e.1 * f.1 + e.2 * f.2
+def norm2 (e : α × α) : α := Scalar.sqrt (dot2 e e)
+
+/-- signed exterior (turning) angle at `b` on the walk `a → b → c`, in `(−π, π]` -/
+def turnAngle (a b c : α × α) : α :=
+  Scalar.atan2 (cross2 (sub2 b a) (sub2 c b)) (dot2 (sub2 b a) (sub2 c b))
+
+/-- total turning along an open path (one term per interior vertex of the path) -/
+def pathTurn : List (α × α) → α
+  | a :: b :: c :: t => turnAngle a b c + pathTurn (b :: c :: t)
+  | _ => lit 0
+
+/-- length of an open path -/
+def pathLen : List (α × α) → α
+  | a :: b :: t => norm2 (sub2 b a) + pathLen (b :: t)
+  | _ => lit 0
+
+/-- the closed walk `v₀ v₁ … v_{n−1} v₀ v₁`: every vertex is an interior vertex exactly once -/
+def closeUp (vs : List (α × α)) : List (α × α) := vs ++ vs.take 2
+/-- the closed walk `v₀ v₁ … v_{n−1} v₀`: every edge exactly once -/
+def closeEdges (vs : List (α × α)) : List (α × α) := vs ++ vs.take 1
+
+/-- sum of the exterior angles of the polygon -/
+def turnSum (vs : List (α × α)) : α := pathTurn (closeUp vs)
+/-- perimeter of the polygon -/
+def perimeter2 (vs : List (α × α)) : α := pathLen (closeEdges vs)
+
+/-- shoelace area `½ Σ (x_i y_{i+1} − x_{i+1} y_i)` of the closed walk -/
+def shoelacePath : List (α × α) → α
+  | a :: b :: t => cross2 a b + shoelacePath (b :: t)
+  | _ => lit 0
+def shoelace2 (vs : List (α × α)) : α := shoelacePath (closeEdges vs) / lit 2
+
+/-- area of a circular sector of radius `r` and opening angle `θ` -/
+def sectorArea (theta r : α) : α := theta / lit 2 * (r * r)
+/-- length of its arc -/
+def arcLength (theta r : α) : α := theta * r
+
+/-- Σ over the edges of the area of the rectangle `L × r` -/
+def stripSum (r : α) : List (α × α) → α
+  | a :: b :: t => norm2 (sub2 b a) * r + stripSum r (b :: t)
+  | _ => lit 0
+/-- Σ over the vertices of the sector area -/
+def sectorSum (r : α) : List (α × α) → α
+  | a :: b :: c :: t => sectorArea (turnAngle a b c) r + sectorSum r (b :: c :: t)
+  | _ => lit 0
+/-- Σ over the vertices of the arc length -/
+def arcSum (r : α) : List (α × α) → α
+  | a :: b :: c :: t => arcLength (turnAngle a b c) r + arcSum r (b :: c :: t)
+  | _ => lit 0
+
+/-- area of the parallel body as the sum of its pieces -/
+def parallelArea2 (A : α) (vs : List (α × α)) (r : α) : α :=
+  A + stripSum r (closeEdges vs) + sectorSum r (closeUp vs)
+/-- perimeter of the parallel body: the translated edges and the arcs -/
+def parallelPerimeter2 (vs : List (α × α)) (r : α) : α :=
+  pathLen (closeEdges vs) + arcSum r (closeUp vs)
+
+/-- `a, b, c` make a strict left turn -/
+def ccw (a b c : α × α) : Bool := decide (lit 0 < cross2 (sub2 b a) (sub2 c a))
+
+/-- `p b c` for every `b` before `c` in the list -/
+def pairsAll (p : α × α → α × α → Bool) : List (α × α) → Bool
+  | [] => true
+  | b :: t => t.all (p b) && pairsAll p t
+
+/-- **strictly convex, counter-clockwise**: every triple of vertices taken in list order makes a
+strict left turn.  (Decidable; evaluated exactly over ℚ by the driver on the implementation's own
+stored vertices.)  It implies that every vertex lies strictly to the left of every edge line not
+through it — the usual definition of a strictly convex counter-clockwise polygon. -/
+def allCcw : List (α × α) → Bool
+  | [] => true
+  | a :: t => pairsAll (ccw a) t && allCcw t
+
+/-! ### the vertex pieces of the spatial parallel body add up to ONE ball
+
+In `K ⊕ rB` the piece at a vertex `v` is the cone of the ball over the exterior (normal) solid angle
+`Ω_v`, of volume `Ω_v r³/3` and area `Ω_v r²`.  By Girard's theorem (trusted) the exterior solid
+angle of a convex polytope at `v` is its angular defect `2π − Σ (face angles at v)`.  Regrouping the
+face angles by faces, `Σ_v Ω_v = 2π·#V − Σ_f (sum of the interior angles of f)`.  That this is `4π`
+— the `4/3 π r³` and `4π r²` of the code — is a theorem (`vertex_caps_sum`) from the exterior-angle
+theorem for every face and Euler's formula `V − E + F = 2`, which the driver checks on the
+implementation's own faces (`eulerOk`). -/
+
+/-- interior angle at `b` of the corner `a b c` of a counter-clockwise face -/
+def interiorAngle (a b c : α × α) : α := pi - turnAngle a b c
+
+def pathInterior : List (α × α) → α
+  | a :: b :: c :: t => interiorAngle a b c + pathInterior (b :: c :: t)
+  | _ => lit 0
+
+/-- sum of the interior angles of a face (given in coordinates of its own plane) -/
+def faceAngleSum (vs : List (α × α)) : α := pathInterior (closeUp vs)
+
+/-- `Σ_v (2π − Σ face angles at v)` regrouped by faces -/
+def capAngleSum (nV : Nat) (faces : List (List (α × α))) : α :=
+  lit 2 * pi * Scalar.ofNat nV - Scalar.sum (faces.map faceAngleSum)
+
+/-- total volume of the vertex pieces -/
+def capVolume (nV : Nat) (faces : List (List (α × α))) (r : α) : α :=
+  capAngleSum nV faces / lit 3 * (r * r * r)
+/-- total area of the vertex pieces -/
+def capArea (nV : Nat) (faces : List (List (α × α))) (r : α) : α :=
+  capAngleSum nV faces * (r * r)
+
+/-- Euler's formula from the vertex count and the face sizes: `2E = Σ n_f`, `V + F = E + 2` -/
+def eulerOk (nV : Nat) (sizes : List Nat) : Bool := 2 * (nV + sizes.length) == sizes.sum + 4
+
+/-- volume of the cylinder wedge on an edge of length `L` with exterior angle `θ`: sector area × length -/
+def wedgeVolume (len theta r : α) : α := len * sectorArea theta r
+/-- its curved area: arc length × length -/
+def wedgeArea (len theta r : α) : α := len * arcLength theta r
+
+def wedgeVolumeSum (r : α) : List (α × α) → α
+  | [] => lit 0
+  | e :: es => wedgeVolume e.1 (exterior e.2) r + wedgeVolumeSum r es
+def wedgeAreaSum (r : α) : List (α × α) → α
+  | [] => lit 0
+  | e :: es => wedgeArea e.1 (exterior e.2) r + wedgeAreaSum r es
+
+/-- volume of the spatial parallel body as the sum of its pieces: core, face slabs, edge wedges,
+vertex pieces -/
+def parallelVolume3 (V S : α) (es : List (α × α)) (nV : Nat) (faces : List (List (α × α))) (r : α) : α :=
+  V + S * r + wedgeVolumeSum r es + capVolume nV faces r
+/-- its surface area: translated faces, wedge mantles, vertex caps -/
+def parallelArea3 (S : α) (es : List (α × α)) (nV : Nat) (faces : List (List (α × α))) (r : α) : α :=
+  S + wedgeAreaSum r es + capArea nV faces r
+
+/-! ### rescaling (`_rescale(k)`: every length × k) of the descriptors' arguments -/
+
+/-- the edge list of the core scaled by `k`: lengths × k, angles unchanged -/
+def scaleEdges (k : α) (es : List (α × α)) : List (α × α) := es.map fun e => (k * e.1, e.2)
+
 end SteinerSpec
